@@ -32,6 +32,34 @@ CLAIMS['C03'] = {
   'note': "Whole-run equality of two executions is not a contract of one call and is not decided; text state, metadynamics/ABF/histogram accumulators and k_moving are n/d here.",
   'design_ref': '§4 C03',
 }
+CLAIMS['C07'] = {
+  'text': "Contracts on the verbatim bodies of colvar::collect_cvc_total_forces, collect_cvc_Jacobians and end_of_step, discharged by CBMC dfcc with symbolic real arithmetic: the reported total force is the sum over enabled components of total_force*coeff/norm (each once, hence linear in the component forces), plus the Jacobian term unless it is hidden and the applied force subtracted; the Jacobian term is (sum of Jacobian_derivative*coeff/norm) * kB*T; the force remembered for subtraction at the next step is the force actually applied.",
+  'note': "Components are stand-ins (uninterpreted total_force / Jacobian_derivative), at most 2 components; the analytic inverse gradients of each component type and calc_colvar_properties are n/d.",
+  'design_ref': '§4 C07'}
+CLAIMS['C14'] = {
+  'text': "Contracts on the verbatim bodies of colvar_grid<size_t>::copy_grid, delta_grid and add_grid, closed by loop contracts for every grid length: each element is combined exactly once with the element of the same address (other, other - own, own + other), nothing else changes, and grids of different multiplicity or size are refused without change.",
+  'note': "Element type size_t (count grids); add_grid requires equal lengths from its caller (it checks only the multiplicity). n/d: replica_share message exchange, file-based metadynamics replicas, interleavings and restarts.",
+  'design_ref': '§4 C14'}
+CLAIMS['C16'] = {
+  'text': "Contract on the verbatim body of integrate_potential::update_div_neighbors (with colvar_grid::wrap replaced by its own proved contract): after a sample in bin ix0 the divergence is recomputed at exactly the 2^nd points wrap(ix0 + delta), delta in {0,1}^nd, each once, for nd = 2 and 3 -- the locality argument behind incremental = batch.",
+  'note': "update_div_local (the stencil) is a logging stub; the Poisson solver and the 1-D cumulative sum are n/d. nd <= 3 is the function's own domain.",
+  'design_ref': '§4 C16'}
+CLAIMS['C17'] = {
+  'text': "Contracts on the verbatim bodies of colvar::update_forces_energy and colvar::end_of_step (symbolic reals): biases act on the extended coordinate (f = fb, Jacobian correction iff hidden), the extended-Lagrangian step runs exactly when the feature is on and a simulation is running, the atoms additionally feel fb_actual unless the variable is external, the returned energy is potential + kinetic, and end_of_step records the relative step used to detect a repeated step.",
+  'note': "update_extended_Lagrangian itself (integrator, reflection, coupling force formula) and the state-file time origin are n/d.",
+  'design_ref': '§4 C17'}
+CLAIMS['C19'] = {
+  'text': "Contracts on the verbatim bodies of colvarmodule::write_traj_files (a data line exactly on absolute steps that are multiples of the frequency, labels at segment start / on request / every 1000 lines, flag cleared), of the walls restraint energy (written E_ column: constant of the wall actually exceeded) and of the accumulated-work update.",
+  'note': "write_traj_files is a bounded stand-in (32-bit steps, frequency 5, restart frequency 7: symbolic % is undecidable in practice); column/label agreement, running averages and correlation functions are n/d.",
+  'design_ref': '§4 C19'}
+CLAIMS['C01'] = {
+  'text': "The propagation chain between energy and force, as contracts on verbatim bodies with symbolic reals: harmonic and wall restraint forces are the hand derivative of their energies over the same metric and prefactor; colvarbias::communicate_forces hands each variable its force exactly once with the time-step factor; colvar::update_forces_energy sums bias forces, Jacobian correction and actual-value forces as documented.",
+  'note': "Component gradients (calc_gradients of ~40 cvc classes), fit gradients, metadynamics/ABMD kernels and atom_group::apply_colvar_force are n/d: calculus over sqrt/acos/eigen-decompositions is outside any contract language available here.",
+  'design_ref': '§4 C01'}
+CLAIMS['C20'] = {
+  'text': "Contract on the verbatim body of colvar::collect_cvc_gradients: the gradients a script query returns are collected from exactly the enabled components, once each; a component switched off at run time contributes nothing.",
+  'note': "The scripting dispatch (colvarscript::run, argument helpers, config queue) is n/d.",
+  'design_ref': '§4 C20'}
 NOT_APPLICABLE = {
  'C12': "quantifies over thread schedules; sequential contract verification (CBMC dfcc) cannot express it and the C++ front end has no OpenMP (DESIGN.md §4 C12)",
 }
